@@ -7,41 +7,31 @@
    slots from the empty heap; every step reports outcome, allocator events and
    (format, representation kind, len32, bytes) of every live tendril. *)
 From Coq Require Import List NArith Bool.
-From HV Require Import Base.Utf8 Tendril.Heap Tendril.TModel Tendril.TSpec Tendril.TUtf8 Tendril.TInv
+From HV Require Import Base.Utf8 Tendril.Heap Tendril.TModel Tendril.TSpec Tendril.TUtf8 Tendril.TWtf8 Tendril.TInv
      Tendril.TPool Tendril.TExec Tendril.TProofs Tendril.TMore.
 Import ListNotations.
 
-(* All histories over Bytes / UTF-8 / ASCII / Latin-1 tendrils (no operation
-   introduces the WTF-8 format): after every operation, the outcome (Ok / Err
-   code / popped char / class) and the bytes of EVERY tendril of the pool are
-   exactly those of the independent-strings specification, len32 is the length
-   of those bytes, inline tendrils hold at most 8 bytes, and every tendril is
-   valid in its format (UTF-8 tendrils decode).  A model history can only end
-   early with the documented u32-overflow panic. *)
+(* All histories, all operations, all five formats: after every operation, the
+   outcome (Ok / Err code / popped char / class) and the bytes of EVERY tendril
+   of the pool are exactly those of the independent-strings specification,
+   len32 is the length of those bytes, inline tendrils hold at most 8 bytes, and
+   every tendril is valid in its format (UTF-8 tendrils decode strictly, WTF-8
+   tendrils are generalised UTF-8 without a surrogate pair in 3+3 form).  The
+   specification's WTF-8 validity and concatenation ([wtf8_spec], [sconcat]) are
+   defined on their own, not through futf::classify.  A model history can only
+   end early with the documented u32-overflow panic.
+   (Until the repairs be977c4 and b017b27 in /repo this was provable only
+   without WTF-8: the validator accepted stray continuation bytes and
+   push_tendril's adjacent-slices shortcut skipped the surrogate fix-up.) *)
 Theorem C11_refines_vec :
-  forall npool ops, forallb (fun o => negb (op_wtf8 o)) ops = true ->
+  forall npool ops,
   match_outs (fst (run_history npool ops)) (spec_run ops (repeat None npool)).
-Proof.
-  intros npool ops H. rewrite <- abs_pool0. apply history_refines.
-  rewrite abs_pool0. apply nowtf8_no_corner; [apply nowtf8_repeat|exact H].
-Qed.
+Proof. intros npool ops. rewrite <- abs_pool0. apply history_refines. Qed.
 Print Assumptions C11_refines_vec.
 
-(* The same for histories that do use WTF-8, except that push_tendril onto a
-   WTF-8 tendril is excluded (its adjacent-slices shortcut skips the surrogate
-   fix-up, which is only right for valid WTF-8, and WTF-8 validity is refuted
-   below).  WTF-8 tendrils are compared byte for byte, but their validity is
-   not claimed and their checked operations use the implementation's own
-   validators as the specification.  PARTIAL with respect to "all formats". *)
-Theorem C11_refines_vec_wtf8_partial :
-  forall npool ops, no_corner ops (repeat None npool) = true ->
-  match_outs (fst (run_history npool ops)) (spec_run ops (repeat None npool)).
-Proof. intros npool ops H. rewrite <- abs_pool0 in *. apply history_refines, H. Qed.
-Print Assumptions C11_refines_vec_wtf8_partial.
-
-(* Every observation of every history (any formats): len32 = number of bytes,
-   inline <= 8 bytes, and the bytes are valid in the tendril's format for
-   Bytes / UTF-8 / ASCII / Latin-1: a UTF-8 tendril always holds valid UTF-8. *)
+(* Every observation of every history: len32 = number of bytes, inline <= 8
+   bytes, and the bytes are valid in the tendril's format: a UTF-8 tendril
+   always holds valid UTF-8, a WTF-8 tendril always holds WTF-8. *)
 Theorem C11_utf8_valid :
   forall npool ops o, In o (fst (run_history npool ops)) ->
   match o with SOk _ _ snap => snap_ok snap | _ => True end.
@@ -51,7 +41,7 @@ Print Assumptions C11_utf8_valid.
 (* Copy on write: an operation changes only the slots it names; every other
    tendril keeps its bytes although it may share a buffer with a mutated one. *)
 Theorem C11_mutation_is_local :
-  forall o p s out p' s' ev j, PInv s p -> wtf8_corner o p = false ->
+  forall o p s out p' s' ev j, PInv s p ->
   exec_op o p s = Ok ((out, p'), s', ev) -> ~ In j (targets o) ->
   sget (abs s' p') j = sget (abs s p) j.
 Proof. exact exec_frame. Qed.
@@ -91,14 +81,39 @@ Theorem C11_utf8_prefix_decides_validity :
 Proof. exact utf8_prefix_ok. Qed.
 Print Assumptions C11_utf8_prefix_decides_validity.
 
-(* Known finding C11-wtf8-validate: the WTF-8 validator (fmt.rs WTF8::validate
-   over futf::classify) accepts a stray continuation byte after a complete
-   sequence, so try_from_byte_slice / try_push_bytes / try_reinterpret build a
-   WTF-8 tendril that is not WTF-8. *)
-Theorem C11_wtf8_validate_refuted :
-  exists b, validate FWtf8 b = true /\ wtf8_spec b = false.
-Proof. exact wtf8_validate_refuted. Qed.
-Print Assumptions C11_wtf8_validate_refuted.
+(* The same for WTF-8 (the code points may be surrogates; a lead surrogate is
+   never directly followed by a trail surrogate) *)
+Theorem C11_wtf8_subseq_decides_validity :
+  forall x off len, wtf8_spec x = true ->
+  vsubseq FWtf8 (firstn len (skipn off x)) = wtf8_spec (firstn len (skipn off x)).
+Proof. exact wtf8_subseq_ok. Qed.
+Print Assumptions C11_wtf8_subseq_decides_validity.
+
+(* The implementation's fix-up of the junction is WTF-8 concatenation, and it
+   keeps the result valid *)
+Theorem C11_wtf8_concat :
+  forall a b, wtf8_spec a = true -> wtf8_spec b = true ->
+  pushed FWtf8 a b = sconcat FWtf8 a b /\ wtf8_spec (sconcat FWtf8 a b) = true.
+Proof. intros a b Ha Hb. split; [apply wtf8_pushed_sconcat|apply wtf8_sconcat_valid]; assumption. Qed.
+Print Assumptions C11_wtf8_concat.
+
+(* Former known finding C11-wtf8-validate (WTF8::validate accepted a stray
+   continuation byte after a complete sequence and skipped what followed):
+   repaired in /repo, commit be977c4.  The validator now accepts exactly the
+   WTF-8 of the specification; the old witnesses are rejected. *)
+Theorem C11_wtf8_validate_exact :
+  forall b, validate FWtf8 b = wtf8_spec b.
+Proof. exact wtf8_validate_exact. Qed.
+Print Assumptions C11_wtf8_validate_exact.
+
+Theorem C11_wtf8_validate_witnesses :
+  validate FWtf8 [0xC3; 0xA9; 0x80]%N = false /\
+  validate FWtf8 [0xE2; 0xA9; 0x80; 0x82; 0xC0; 0x41]%N = false /\
+  validate FWtf8 [0xED; 0xA0; 0x80; 0xED; 0xB0; 0x80]%N = false /\
+  validate FWtf8 [0xED; 0xA0; 0x80]%N = true /\
+  validate FWtf8 [0xED; 0xB0; 0x80; 0xED; 0xA0; 0x80]%N = true.
+Proof. exact wtf8_validate_witnesses. Qed.
+Print Assumptions C11_wtf8_validate_witnesses.
 
 (* non-vacuity: "abcdefghi" (9 bytes, owned), clone it (both shared), push "xy"
    onto the clone (copy on write: the original keeps its bytes), slice
@@ -106,7 +121,6 @@ Print Assumptions C11_wtf8_validate_refuted.
 Example C11_nonvacuous :
   let ops := [ONew 0 FUtf8 [97;98;99;100;101;102;103;104;105]%N; OClone 1 0; OPush 1 [120;121]%N;
               ONew 2 FUtf8 [97;195;169;98]%N; OSub false 3 2 1 2; OSub false 3 2 2 1]%N in
-  forallb (fun o => negb (op_wtf8 o)) ops = true /\
   map (fun o => match o with SOk r _ snap => Some (r, map (option_map (fun e => (snd (fst (fst e)), snd e))) snap) | _ => None end)
       (fst (run_history 4 ops)) =
   [Some (ROk, [Some (KOwned, [97;98;99;100;101;102;103;104;105]); None; None; None]);
@@ -115,4 +129,20 @@ Example C11_nonvacuous :
    Some (ROk, [Some (KShared, [97;98;99;100;101;102;103;104;105]); Some (KOwned, [97;98;99;100;101;102;103;104;105;120;121]); Some (KInline, [97;195;169;98]); None]);
    Some (ROk, [Some (KShared, [97;98;99;100;101;102;103;104;105]); Some (KOwned, [97;98;99;100;101;102;103;104;105;120;121]); Some (KInline, [97;195;169;98]); Some (KInline, [195;169])]);
    Some (RErr false 2, [Some (KShared, [97;98;99;100;101;102;103;104;105]); Some (KOwned, [97;98;99;100;101;102;103;104;105;120;121]); Some (KInline, [97;195;169;98]); Some (KInline, [195;169])])]%N.
-Proof. split; vm_compute; reflexivity. Qed.
+Proof. vm_compute. reflexivity. Qed.
+
+(* former known finding C11-wtf8-pusht-merge (repaired in /repo, commit b017b27):
+   two adjacent shared slices of one buffer, the first ending in a lead surrogate,
+   the second starting with a trail surrogate, reinterpreted as WTF-8 and joined
+   with push_tendril: the pair becomes the 4-byte sequence F0 90 80 80 *)
+Example C11_wtf8_adjacent_join :
+  let a := [97;97;97;97;97;97;97;97;97;237;160;128]%N in
+  let b := [237;176;128;98;98;98;98;98;98;98;98;98]%N in
+  let ops := [ONew 0 FBytes (a ++ b); OSub false 1 0 0 12; OSub false 2 0 12 12;
+              OReint 1 FWtf8; OReint 2 FWtf8; OPushT 1 2]%N in
+  match last (fst (run_history 4 ops)) (SUB 0) with
+  | SOk r _ snap => r = ROk /\ nth 1 snap None =
+      Some (FWtf8, KOwned, 22%N, [97;97;97;97;97;97;97;97;97;240;144;128;128;98;98;98;98;98;98;98;98;98]%N)
+  | _ => False
+  end.
+Proof. vm_compute. split; reflexivity. Qed.
